@@ -181,6 +181,159 @@ def cond_patterns():
     return out
 
 
+def layout_patterns():
+    """Globals of mixed size and alignment (a misaligning byte object, then a word, then small objects, a string
+    literal): every object is initialised, overwritten and read back; no two objects may share bytes."""
+    from ppci import ir
+
+    shapes = {
+        "c_i_c": [(1, 1), (4, 4), (1, 1)],
+        "c3_i_h_c_l": [(3, 1), (4, 4), (2, 2), (1, 1), (8, 8)],
+        "c_h_c_l_c_i": [(1, 1), (2, 2), (1, 1), (8, 8), (1, 1), (4, 4)],
+        "i_c_c_i": [(4, 4), (1, 1), (1, 1), (4, 4)],
+    }
+    lty = {1: "i8", 2: "i16", 4: "i32", 8: "i64"}
+    out = []
+    for name, shape in shapes.items():
+        for with_literal in (False, True):
+            def make(shape=shape, with_literal=with_literal):
+                m = _mod("layout")
+                gs = []
+                for k, (size, align) in enumerate(shape):
+                    init = bytes(((17 * k + 5 + j) & 0x7F) or 1 for j in range(size))
+                    g = ir.Variable("v%d" % k, ir.Binding.GLOBAL, size, align, value=(init,))
+                    m.add_variable(g)
+                    gs.append((g, size))
+                f, e, (a, b) = _fn(m, "f", "i64", ["i32", "i32"])
+                n = [0]
+
+                def nm(p):
+                    n[0] += 1
+                    return "%s%d" % (p, n[0])
+
+                acc = ir.Const(0, "acc0", ir.i64)
+                e.add_instruction(acc)
+
+                def fold(acc, v, t):
+                    if t != "i64":
+                        if t != "i32":
+                            v = ir.Cast(v, nm("w"), ir.i32)
+                            e.add_instruction(v)
+                        v = ir.Cast(v, nm("x"), ir.i64)
+                        e.add_instruction(v)
+                    k131 = ir.Const(131, nm("k"), ir.i64)
+                    e.add_instruction(k131)
+                    t1 = ir.Binop(acc, "*", k131, nm("m"), ir.i64)
+                    e.add_instruction(t1)
+                    t2 = ir.Binop(t1, "+", v, nm("s"), ir.i64)
+                    e.add_instruction(t2)
+                    return t2
+
+                def load_all(acc):
+                    for g, size in gs:
+                        if size == 3:
+                            for j in range(3):
+                                addr = g
+                                if j:
+                                    off = ir.Const(j, nm("o"), ir.ptr)
+                                    e.add_instruction(off)
+                                    addr = ir.Binop(g, "+", off, nm("p"), ir.ptr)
+                                    e.add_instruction(addr)
+                                v = ir.Load(addr, nm("l"), ir.i8)
+                                e.add_instruction(v)
+                                acc = fold(acc, v, "i8")
+                        else:
+                            v = ir.Load(g, nm("l"), getattr(ir, lty[size]))
+                            e.add_instruction(v)
+                            acc = fold(acc, v, lty[size])
+                    return acc
+
+                acc = load_all(acc)                      # the initial values
+                if with_literal:
+                    lit = ir.LiteralData(bytes([0x41, 0x42, 0x43, 0x44, 0x45]), "lit")
+                    e.add_instruction(lit)
+                    la = ir.AddressOf(lit, "la")
+                    e.add_instruction(la)
+                    v = ir.Load(la, nm("l"), ir.i8)
+                    e.add_instruction(v)
+                    acc = fold(acc, v, "i8")
+                for k, (g, size) in enumerate(gs):       # overwrite every object with a value derived from a / b
+                    src = a if k % 2 == 0 else b
+                    kk = ir.Const(k + 1, nm("k"), ir.i32)
+                    e.add_instruction(kk)
+                    val = ir.Binop(src, "+", kk, nm("v"), ir.i32)
+                    e.add_instruction(val)
+                    if size == 8:
+                        val = ir.Cast(val, nm("c"), ir.i64)
+                        e.add_instruction(val)
+                    elif size in (1, 2, 3):
+                        val = ir.Cast(val, nm("c"), ir.i8 if size != 2 else ir.i16)
+                        e.add_instruction(val)
+                    e.add_instruction(ir.Store(val, g))
+                    acc = load_all(acc)                  # nothing else may have changed
+                e.add_instruction(ir.Return(acc))
+                return m
+
+            out.append(("layout:%s%s" % (name, ":lit" if with_literal else ""), make, "f", ["i32", "i32"], []))
+    return out
+
+
+def fptr_patterns():
+    """The addresses of three functions taken at several sites in interleaved order; every site is called through."""
+    from ppci import ir
+
+    orders = {"abc_bac_cab": ["abc", "bac", "cab"], "aab_cba_bcc": ["aab", "cba", "bcc"], "cba_abc": ["cba", "abc"],
+              "bab_aba_cac": ["bab", "aba", "cac"]}
+    out = []
+    for name, rounds in orders.items():
+        def make(rounds=rounds):
+            m = _mod("fptr")
+            fns = {}
+            for nm_, op, k in (("a", "+", 1), ("b", "*", 3), ("c", "-", 7)):
+                f, e, (x,) = _fn(m, "f" + nm_, "i32", ["i32"])
+                c = ir.Const(k, "k", ir.i32)
+                e.add_instruction(c)
+                v = ir.Binop(x, op, c, "v", ir.i32)
+                e.add_instruction(v)
+                e.add_instruction(ir.Return(v))
+                fns[nm_] = f
+            f, cur, (sel, x) = _fn(m, "f", "i32", ["i32", "i32"])
+            n = [0]
+
+            def nm(p):
+                n[0] += 1
+                return "%s%d" % (p, n[0])
+
+            def blk(p):
+                b = ir.Block("f_" + nm(p))
+                f.add_block(b)
+                return b
+
+            val = x
+            for rnd in rounds:
+                b0, t1, b1, b2, join = blk("s0"), blk("t"), blk("s1"), blk("s2"), blk("j")
+                zero = ir.Const(0, nm("z"), ir.i32)
+                cur.add_instruction(zero)
+                cur.add_instruction(ir.CJump(sel, "==", zero, b0, t1))
+                one = ir.Const(1, nm("o"), ir.i32)
+                t1.add_instruction(one)
+                t1.add_instruction(ir.CJump(sel, "==", one, b1, b2))
+                for b in (b0, b1, b2):
+                    b.add_instruction(ir.Jump(join))
+                phi = ir.Phi(nm("fp"), ir.ptr)
+                join.add_instruction(phi)
+                for b, ch in zip((b0, b1, b2), rnd):
+                    phi.set_incoming(b, fns[ch])
+                val = ir.FunctionCall(phi, [val], nm("r"), ir.i32)
+                join.add_instruction(val)
+                cur = join
+            cur.add_instruction(ir.Return(val))
+            return m
+
+        out.append(("fptr:" + name, make, "f", ["i32", "i32"], []))
+    return out
+
+
 def cast_patterns():
     """f(a) = cast chain; every cast ppci2wasm knows, observed through a further widening where possible."""
     from ppci import ir
